@@ -126,6 +126,7 @@ def b_load(case, ctx):
     if res["status"] in ("no_answer", "cpu_timeout"):
         # confirm alone, twice, with the budget doubled; anything else is inconclusive, never a violation
         confirmed = 0
+        answered = None
         for _ in range(2):
             w = Worker()
             c2 = dict(case, cpu_budget=2 * cpu)
@@ -133,10 +134,17 @@ def b_load(case, ctx):
             w.kill()
             if r2["status"] in ("no_answer", "cpu_timeout"):
                 confirmed += 1
+            elif r2["status"] != "died":
+                answered = r2
         if confirmed == 2:
             raise Violation(sigp + f"|hang|fault={fk}", ent + f"no result within 2 x (5 s + 2 ms/byte) CPU for a {n} byte input ({res['status']}); fault {case['fault'][:3]}")
-        ctx.note(cls="inconclusive:slow_once")
-        return
+        if answered is None:
+            ctx.note(cls="inconclusive:slow_once")
+            return
+        # the longer run did answer (e.g. a loader that grows until the address-space limit stops it): judge that answer
+        # by everything except the time budget, which it was given twice
+        res = dict(answered, cpu_s=0.0)
+        ctx.note(cls="answered_with_doubled_budget")
     if res["status"] == "died":
         # re-run once in a fresh worker to make sure the death belongs to this input
         w = Worker()
@@ -158,6 +166,10 @@ def b_load(case, ctx):
     limit_kb = 64 * 1024 + 2000 * n // 1024 + 1
     if res.get("peak_kb", 0) > limit_kb:
         raise Violation(sigp + f"|memory|fault={fk}", ent + f"peak memory grew by {res['peak_kb']} kB for a {n} byte input (limit {limit_kb} kB); fault {case['fault'][:3]}")
+    # address space requested for one load (buffers sized by a corrupt length field are requested before they are
+    # touched): the process-wide peak of the virtual size may not jump by more than 512 MiB + 2000 x input
+    if res.get("vm_peak_growth_kb", 0) > 512 * 1024 + limit_kb:
+        raise Violation(sigp + f"|memory|address_space|fault={fk}", ent + f"the peak virtual size grew by {res['vm_peak_growth_kb']} kB for a {n} byte input; fault {case['fault'][:3]}")
     if res.get("fd_leak"):
         raise Violation(
             sigp + f"|descriptor_left_open|outcome={res['status']}|via_path={case['via_path']}|gc_closes={not res.get('fd_leak_after_gc')}",
@@ -224,6 +236,27 @@ def systematic_cases(tier):
             for i in range(0, min(n // 4, 30 if quick else 60)):
                 for w in ((0xFFFFFFFF, 0x7FFFFFFF, 0x80000000) if quick else (0xFFFFFFFF, 0x7FFFFFFF, 0, 0x00FFFFFF, 0x80000000)):
                     yield mk(["word", i, w])
+            # pairs of aligned words in the first 32 bytes: length fields that bound each other (file length vs chunk
+            # length, header size vs count); both transports, since some bounds are taken from the file on disk
+            nw = min(n // 4, 8)
+            pair_vals = (0xFFFFFFFF, 0x7FFFFFFF) if quick else (0xFFFFFFFF, 0x7FFFFFFF, 0x7FFFF0FF, 0x00FFFFFF)
+            for i in range(nw):
+                for j in range(i + 1, nw):
+                    for wi in pair_vals:
+                        for wj in pair_vals:
+                            for vp in (False, True):
+                                c = mk(["multi", ["word", i, wi], ["word", j, wj]])
+                                c["via_path"] = vp
+                                yield c
+            # small integer tokens (indices into other tables: node children, accessor / buffer view / material
+            # references, face indices): +-1 keeps the syntax valid and changes the structure (cycles, dangling refs)
+            import re as _re
+
+            ntok = len(_re.findall(rb"(?<![\d.\-+eE])\d(?![\d.eE])", data))
+            tstep = max(1, ntok // 150) if quick else 1
+            for j in range(0, ntok, tstep):
+                for d in ((1, -1) if quick else (1, -1, 2, 5)):
+                    yield mk(["small_int", j, d])
             # ascii integers
             for i in range(0, 16 if quick else 200):
                 for v in ((0, 4294967295, -7) if quick else (0, 4294967295, 10**12, -7, 99999999)):
@@ -287,4 +320,4 @@ def s_random(ctx):
         _WORKER.kill()
 
 
-REQUIRED_CLASSES["C20"] = ["fmt:stl", "fmt:ply", "fmt:glb", "fmt:obj", "fmt:3mf", "fmt:dxf", "fmt:svg", "fault:truncate", "fault:word", "fault:line_digit"]
+REQUIRED_CLASSES["C20"] = ["fmt:stl", "fmt:ply", "fmt:glb", "fmt:obj", "fmt:3mf", "fmt:dxf", "fmt:svg", "fault:truncate", "fault:word", "fault:line_digit", "fault:multi", "fault:small_int"]
